@@ -4,7 +4,7 @@
 # the harness objects into <outdir>/alsim.  Nothing prebuilt from /repo is used.
 set -e
 OUT="$1"; SAN="$2"; WHAT="$3"
-V=/verif
+V=$(cd "$(dirname "$0")/.." && pwd)
 REPO=${VERIF_REPO:-/repo}
 mkdir -p "$OUT"
 make -s -C $V harness >"$OUT/harness.log" 2>&1 || { cat "$OUT/harness.log"; exit 2; }
